@@ -166,7 +166,13 @@ func (r *gatewayController) buildCanaryHeaderHttpRoutes(rules []gatewayv1beta1.H
 	for i := range rules {
 		rule := rules[i]
 		if _, canaryRef := getServiceBackendRef(rule, r.conf.CanaryService); canaryRef != nil {
-			continue
+			if _, stableRef := getServiceBackendRef(rule, r.conf.StableService); stableRef == nil {
+				// a canary rule generated by an earlier match step: it is rebuilt below
+				continue
+			}
+			// the user's rule, extended with the canary backend by an earlier weight step: it must be kept;
+			// this step routes by match, so the canary backend is taken out of it again
+			filterOutServiceBackendRef(&rule, r.conf.CanaryService)
 		}
 		desired = append(desired, rule)
 		if _, stableRef := getServiceBackendRef(rule, r.conf.StableService); stableRef == nil {
